@@ -3,16 +3,17 @@
 S=/var/tmp/verif-scratch/${VERIF_DEV:-dev}
 /verif/sim/dev.sh test -c -o $S/worker.test . || exit 2
 mkdir -p $S/replays $S/runs
-cd $S && VERIF_PROP=$1 VERIF_SEED=${3:-1} VERIF_BUDGET_S=${2:-10} VERIF_SCRATCH=$S/runs VERIF_REPLAY_DIR=$S/replays env ${VERIF_ENV:-} ./worker.test -test.run TestWorker > $S/out.jsonl 2> $S/err.txt
+cd $S && VERIF_PROP=$1 VERIF_SEED=${3:-1} VERIF_BUDGET_S=${2:-10} VERIF_SCRATCH=$S/runs VERIF_REPLAY_DIR=$S/replays VERIF_KNOWN=${VERIF_KNOWN-/verif/known_findings.json} env ${VERIF_ENV:-} ./worker.test -test.run TestWorker > $S/out.jsonl 2> $S/err.txt
 python3 - <<PY
 import json
-n=0;v=[];infra=[]
+n=0;v=[];infra=[];k={}
 for l in open('$S/out.jsonl'):
     if not l.startswith('{'): continue
     d=json.loads(l); n+=1
+    if d.get('known'): k[d['known']]=k.get(d['known'],0)+1; continue
     if d.get('violation'): v.append(d)
     if d.get('infra'): infra.append(d)
-print('runs',n,'violations',len(v),'infra',len(infra))
+print('runs',n,'violations',len(v),'infra',len(infra),'known',k)
 for d in v: print(' V',d['idx'],d['violation']['oracle'],'|',d['violation']['detail'][:300],'|',d.get('shrunk'),d.get('replay'))
 for d in infra[:5]: print(' I',d['idx'],d['infra'][:300])
 PY
